@@ -343,6 +343,10 @@ func (c *FnCtx) staticCall(fr *Frame, st *State, x *ssa.Call, callee *ssa.Functi
 		fr.regs[x] = c.quantifier(fr, st, callee.Name() == "verifForall", fr.val(cc.Args[0]).(*Term), fr.val(cc.Args[1]))
 		return
 	}
+	if callee.Pkg == c.eng.ld.SSA && callee.Name() == "verifForallKeys" && c.eng.isGhostFn(callee) {
+		fr.regs[x] = c.quantifierKeys(fr, st, cc.Args[0].Type(), fr.val(cc.Args[0]).(*Term), fr.val(cc.Args[1]))
+		return
+	}
 	var args []*Term
 	sig := callee.Signature
 	off := 0
@@ -458,10 +462,13 @@ func (c *FnCtx) callContract(fr *Frame, st *State, x *ssa.Call, callee *ssa.Func
 		c.assumePkgInv(st)
 	}
 	pargs := append(append(append([]*Term{}, args...), res...), olds...)
+	savedBase := c.freshBase
+	c.freshBase = pre.wm // "fresh" in the callee's postcondition: allocated during the call
 	for _, en := range fc.Ensures {
 		r := c.evalGhost(st, e.ld.GhostFunc(en.Fn), pargs)
 		c.addFact(st, r)
 	}
+	c.freshBase = savedBase
 	if fc.Trusted {
 		c.trusted["trusted contract (assumed, body not verified): "+fc.Name] = true
 	}
@@ -662,4 +669,28 @@ func (c *FnCtx) quantifier(fr *Frame, st *State, universal bool, n *Term, fv Sym
 	}
 	b := ts.And(rng, body[0])
 	return ts.Quant("exists", bv, b)
+}
+
+// quantifierKeys: verifForallKeys(m, func(k string, v interface{}) bool {...}) == forall k. k in dom(m) => body(k, m[k])
+func (c *FnCtx) quantifierKeys(fr *Frame, st *State, mt types.Type, m *Term, fv SymVal) *Term {
+	ts := c.eng.ts
+	f, ok := fv.(*FuncVal)
+	if !ok || f.fn == nil {
+		unsupported("quantifier body must be a function literal")
+	}
+	mh := c.mapHeaps(st, mt)
+	bv := ts.Bound("k", mh.ks)
+	dom := ts.Select(c.hget(st, mh.dom, mh.sdom, m), bv)
+	val := ts.Select(c.hget(st, mh.sel, mh.ssel, m), bv)
+	work := st.clone()
+	work.pc = ts.And(st.pc, dom)
+	c.noObl++
+	var body []*Term
+	if len(f.bindings) > 0 {
+		body = c.inlineClosure(work, f.fn, []*Term{bv, val}, f.bindings)
+	} else {
+		body = c.inline(work, f.fn, []*Term{bv, val}, true)
+	}
+	c.noObl--
+	return ts.Quant("forall", bv, ts.Implies(dom, body[0]))
 }
